@@ -3,6 +3,7 @@ package c18
 
 import (
 	"bytes"
+	"encoding/json"
 	"errors"
 	"fmt"
 	"os"
@@ -101,6 +102,12 @@ func (m *memfs) WriteFile(p string, data []byte) error {
 				n = 1
 			case 3:
 				n = len(data) / 2
+			case 5:
+				n = 16384 // exactly the prefix covered by the first-16-KiB hash
+			case 6:
+				n = 16383
+			case 7:
+				n = 16385
 			default:
 				n = len(data) - 1
 			}
@@ -478,12 +485,21 @@ func TestCheck(t *testing.T) {
 			}
 		}
 		ok := true
+		big := false
+		for _, f := range base.Files {
+			if f.Size > 16385 {
+				big = true
+			}
+		}
 		rec.ClassN("trace-length-total", uint64(len(free.trace)))
 		rec.Class("sweep:" + base.Format + "/" + base.Op)
 		for i, cl := range free.trace {
 			kinds := []int{0}
 			if cl.Op == "write" {
 				kinds = []int{0, 1, 2, 3, 4}
+				if big {
+					kinds = append(kinds, 5, 6, 7)
+				}
 			}
 			for _, k := range kinds {
 				c := base
@@ -530,6 +546,18 @@ func TestCheck(t *testing.T) {
 	}
 
 	if cfg.Replay != "" {
+		var probe struct {
+			Fault json.RawMessage `json:"fault"`
+		}
+		var rc RFCase
+		if rf, err := run.LoadReplay(cfg.Replay, &probe); err == nil && rf.Kind == "realfs" {
+			run.LoadReplay(cfg.Replay, &rc)
+			rec.Eval()
+			if msg := runRF(rc); msg != "" && msg != "INCONCLUSIVE" {
+				rec.Fail("realfs", rc, "", msg)
+			}
+			return
+		}
 		var c Case
 		if _, err := run.LoadReplay(cfg.Replay, &c); err != nil {
 			t.Fatal(err)
@@ -568,6 +596,22 @@ func TestCheck(t *testing.T) {
 		}
 	}
 
+	if cfg.Shard == 0 {
+		realFSFaults(rec)
+	}
+	// fixed states with a file above 16 KiB (torn writes at 16383/16384/16385 bytes)
+	for bi, b := range []Case{
+		{Format: "par1", Op: "repair", N: 2, Files: []scen.FileSpec{{Name: "a.dat", Size: 20000, Kind: "random", Seed: 61}, {Name: "b.bin", Size: 300, Kind: "random", Seed: 62}}, Damage: []scen.Damage{{Op: "delete", File: 0}}},
+		{Format: "par1", Op: "repair", N: 2, Files: []scen.FileSpec{{Name: "a.dat", Size: 32768, Kind: "random", Seed: 63}, {Name: "b.bin", Size: 40000, Kind: "random", Seed: 64}}, Damage: []scen.Damage{{Op: "flip", File: 0, Off: 5}, {Op: "delete", File: 1}}},
+		{Format: "par2", Op: "repair", Slice: 1024, N: 25, Files: []scen.FileSpec{{Name: "a.dat", Size: 20000, Kind: "random", Seed: 65}, {Name: "sub/b.bin", Size: 300, Kind: "random", Seed: 66}}, Damage: []scen.Damage{{Op: "delete", File: 0}}},
+		{Format: "par2", Op: "create", Slice: 2048, N: 2, Files: []scen.FileSpec{{Name: "a.dat", Size: 40000, Kind: "random", Seed: 67}}},
+		{Format: "par1", Op: "create", N: 2, Files: []scen.FileSpec{{Name: "a.dat", Size: 40000, Kind: "random", Seed: 68}}},
+	} {
+		if cfg.Mine(9000 + bi) {
+			b.Fault = fault{At: -1}
+			sweep(b, 4, uint64(bi+1))
+		}
+	}
 	cfg.SetRapid(cfg.N(400, 3000), 1)
 	rapid.Check(t, func(rt *rapid.T) {
 		c := Case{Format: rapid.SampledFrom([]string{"par2", "par1"}).Draw(rt, "format"), Op: rapid.SampledFrom([]string{"create", "verify", "repair", "repair"}).Draw(rt, "op")}
